@@ -25,6 +25,8 @@ func c10Extra(c *Ctx) {
 	ruleLoopAccum(c, "LOOP-ACCUM", c.P.ModulePkgs())
 	c10ForeignNotFound(c, pk)
 	c10BuilderRecords(c, pk)
+	c10ImportKindBlind(c)
+	c10AddNotTargetGated(c)
 	ruleFilteredPreferred(c, "TARGETS-PREFERRED", pk, 1)
 	ruleDelegateErr(c, "DELEGATE-ERR", []*packages.Package{pk})
 	// (b) owner loop
